@@ -9,13 +9,6 @@ EXTENDS QExpr, Json, IOUtils
 Tr == ndJsonDeserialize(IOEnv.TRACE)
 VARIABLE l
 Observed(e) == IF e.ok = 1 THEN (IF e.exact = 1 THEN Num(e.n) ELSE [t |-> "inexact"]) ELSE None
-\* decimal text of n / 16 for multiples of a quarter: integer, or integer.25 / .5 / .75
-RECURSIVE DecDigits(_)
-DecDigits(x) == IF x < 10 THEN <<48 + x>> ELSE DecDigits(x \div 10) \o <<48 + (x % 10)>>
-QuarterText(n) == LET a == IF n < 0 THEN 0 - n ELSE n
-                      ip == a \div 16  fr == a % 16
-                  IN (IF n < 0 THEN <<45>> ELSE <<>>) \o DecDigits(ip) \o
-                     (CASE fr = 0 -> <<>> [] fr = 4 -> <<46, 50, 53>> [] fr = 8 -> <<46, 53>> [] fr = 12 -> <<46, 55, 53>>)
 MathSource(e) == <<123, 109, 97, 116, 104, 58>> \o e.text \o <<125>>          \* {math:...}
 EventOK(e) ==
     LET A == Admissible(e.tokens)  o == Observed(e) IN
